@@ -1,5 +1,6 @@
 (* C06 - ground-text rendering is faithful and complete.
-   The theorems are stated for THEORY-FREE steps whose names / #show terms are identifiers ([a-z_][A-Za-z0-9_]*, not "not")
+   The theorems are stated for THEORY-FREE steps whose names / #show terms are ground atoms: an identifier
+   ([a-z_][A-Za-z0-9_]*, not "not") optionally followed by a balanced argument list such as p(1,"a b",f(x)) - RefParse.good_nameb -
    and are therefore named ..._partial: theory atoms (visitTheories, TheoryAtomStringBuilder) are part of the model
    (C06/Model.v), of the correspondence check and of the python oracle, but not of the reference parser / these proofs.
    Model: C06/Model.v (AspifTextOutput as repaired), reference parser: C06/RefParse.v, specification: C06/Spec.v. *)
@@ -70,5 +71,33 @@ Example ex_step_parse :
         SShow [98] [(false, [97])]; SShow [99] [(true, [120; 95; 50])];
         SExternal [120; 95; 51] 0; SHeu [97] [] (-2) 0 5; SEdge 0 1 [(false, [97]); (true, [120; 95; 51])]].
 Proof. vm_compute. reflexivity. Qed.
+(* a name with an argument list and a quoted string:  p(1,"a b") for atom 3 *)
+Definition ex_args : list call := [COutput [112; 40; 49; 44; 34; 97; 32; 98; 34; 41] [3]; CRule 0 [3] [-3; 1]].
+Example ex_args_ok : Forall call_ok ex_args.
+Proof. repeat constructor; try (cbn; lia); try reflexivity. Qed.
+Example ex_args_parse :
+  ref_parse (out (snd (run_calls init_st (CBegin :: ex_args ++ [CEnd])))) =
+  Some [SRule false [[112; 40; 49; 44; 34; 97; 32; 98; 34; 41]]
+          (BNormal [(true, [112; 40; 49; 44; 34; 97; 32; 98; 34; 41]); (false, [120; 95; 49])])].
+Proof. vm_compute. reflexivity. Qed.
 Example c06_smoke : run_case [1;0;2;4;0;1;1;0;3] = [0; 5; 120; 95; 49; 46; 10].
 Proof. vm_compute. reflexivity. Qed.
+
+(* ---- why the theorems stop at theory-free programs: for theory atoms the full statement ("theory atoms with the same
+        term structure" can be read back) is REFUTED by the faithful model - two different term structures,
+        (1+2)*3 and 1+(2*3), are rendered to the same text (known finding theory-nested-operators) ---- *)
+Definition th_common : list call :=
+  [CTSym 0 [43]; CTSym 1 [42]; CTNum 2 1; CTNum 3 2; CTNum 4 3; CTSym 9 [112]].
+Definition th_left : list call :=   (* (1+2)*3 *)
+  th_common ++ [CTComp 5 0 [2; 3]; CTComp 6 1 [5; 4]; CTElem 0 [6] []; CTAtom 0 9 [0]].
+Definition th_right : list call :=  (* 1+(2*3) *)
+  th_common ++ [CTComp 5 1 [3; 4]; CTComp 6 0 [2; 5]; CTElem 0 [6] []; CTAtom 0 9 [0]].
+Theorem c06_theory_structure_refuted :
+  exists cs1 cs2 : list call, cs1 <> cs2 /\
+    fst (run_calls init_st (CBegin :: cs1 ++ [CEnd])) = 0 /\
+    out (snd (run_calls init_st (CBegin :: cs1 ++ [CEnd]))) = out (snd (run_calls init_st (CBegin :: cs2 ++ [CEnd]))) /\
+    out (snd (run_calls init_st (CBegin :: cs1 ++ [CEnd]))) = [38; 112; 123; 49; 32; 43; 32; 50; 32; 42; 32; 51; 125; 46; 10].
+Proof.
+  exists th_left, th_right. split; [discriminate|]. split; [vm_compute; reflexivity|]. split; vm_compute; reflexivity.
+Qed.
+Print Assumptions c06_theory_structure_refuted.
